@@ -433,7 +433,41 @@ def discharge(ctx, s, scope=None):
         c = _const_int(ops[1])
         if c is not None and c >= 1:
             return 'constant chunk size %d' % c
+    r_ = _index_walk_discharge(kind, ops)
+    if r_ is not None:
+        return r_
+    if kind == 'assert:overflow:Sub' and len(ops) == 2 and _const_int(_strip(ops[1])) == 1:
+        # len(X) - 1 inside a loop that walks X by index: the body runs only when X is non-empty
+        from bpsa.terms import index_view, _view_component
+        a0 = _strip(ops[0])
+        if a0.tag == 'call' and a0[1].split('::')[-1] == 'len' and len(a0[2]) == 1:
+            for lp in ctx.enclosing_loops(body, s['bb']):
+                it = lp.iter_term
+                while it is not None and it.tag == 'mut':
+                    it = it[1]
+                if it is not None and it.tag == 'enumerate' and getattr(lp, 'index_range', None) is not None and _view_component(it[1], a0[2][0])[0]:
+                    return 'inside an index loop over %s, which has an element whenever the body runs' % canon(a0[2][0])[:60]
     return _const_layout_discharge(kind, ops)
+
+
+def _index_walk_discharge(kind, ops):
+    """`x.len() - 1 - i` inside `for i in 0..n` with n <= x.len(): the loop body runs only when x has an element (so len - 1 does not
+    wrap) and i <= len - 1"""
+    if kind != 'assert:overflow:Sub' or len(ops) != 2:
+        return None
+    from bpsa.terms import index_view, _view_component, _same_collection
+    a, b = ops
+    def is_len(t):
+        t = _strip(t)
+        return t[2][0] if t.tag == 'call' and t[1].split('::')[-1] == 'len' and len(t[2]) == 1 else None
+    # (len(X) - 1) - idx(view containing X)
+    a0 = _strip(a)
+    if a0.tag == 'binop' and a0[1] == 'Sub' and _const_int(_strip(a0[3])) == 1 and is_len(a0[2]) is not None and _strip(b).tag == 'index':
+        v = _strip(b)[1]
+        v = index_view(v) if v.tag == 'range' else v
+        if v is not None and v.tag != 'range' and _view_component(v, is_len(a0[2]))[0]:
+            return 'the index walks a collection no longer than %s, so it is at most len - 1' % canon(is_len(a0[2]))[:60]
+    return None
 
 
 def _const_layout_discharge(kind, ops):
